@@ -5,3 +5,5 @@ From Verif.Tie.Loops Require CranRange.
 From Verif.Tie.Loops Require ScanMore Rpm RpmRange.
 From Verif.Tie.Loops Require Alpm AlpmRange Gem.
 From Verif.Tie.Loops Require PadIdx Pypi Alpine Maven.
+From Verif.Tie.Loops Require Idents Npm Nuget Hex Cargo Golang CargoRange.
+From Verif.Tie.Loops Require Conan ConanRange.
